@@ -89,3 +89,6 @@ func (c *Chaos) Hook(site string) {
 		time.Sleep(d)
 	}
 }
+
+// Goid returns the id of the calling goroutine.
+func Goid() int64 { return goid() }
